@@ -65,7 +65,7 @@ def run(ctx, deps=True):
     # unknown role raises the unknown-role error
     n = 0
     for p in sm.paths:
-        if p.kind == "raise" and p.value.origin == "explicit" and len(p.value.chain) == 1 and ("nothas", D, name) in p.facts:
+        if p.kind == "raise" and p.value.origin == "explicit" and all(own_site(eng, st_, "authentication.verify_delegation") for st_ in p.value.chain) and ("nothas", D, name) in p.facts:
             n += 1
             s = p.value.chain[0]
             ctx.ob("R2", "unknown-role-error|%s" % s.key(), s.loc(), "an undelegated role is rejected with %s" % p.value.exc, eng.prog.exc_is_sub(p.value.exc, "UnknownRoleError"))
